@@ -10,7 +10,7 @@ from celmodel.values import top_outcome
 RULE = ("expression trees rendered fully and minimally parenthesised and parsed back (cel_parser::Parser::parse, "
         "public AST modulo node ids): exhaustively all trees with <= 2 (quick) / <= 3 (thorough) operators from "
         "the complete operator set (14 binary, 2 prefix, ?:, select, index, global / receiver calls, list and map "
-        "literals, macros) over 2 leaf kinds, every && / || chain of length 2-64, every mixed chain of length <= 8, "
+        "literals, macros) over 2 leaf kinds, every && / || chain of length 2-64, every mixed chain of length <= 8, every chain of 3-20 (quick) / 3-64 (thorough) operands under one repeated or several same-level arithmetic / relational operators, ?: ladders and postfix chains to 24, each also nested as argument / element / macro body, "
         "every prefix run of length <= 6 over 7 operand kinds, random trees of depth <= 7; && / || chains are "
         "compared by operand sequence; non-trivial = tree with >= 2 operators or a chain / run of length >= 2; "
         "distinct = distinct (tree, rendering)")
@@ -79,7 +79,7 @@ def instantiate(sh, leafkinds):
 
 
 def units(tier, seed):
-    us = [('ops', 1, 0, 1), ('chains',), ('mixed',), ('runs',), ('signed',)]
+    us = [('ops', 1, 0, 1), ('chains',), ('mixed',), ('runs',), ('signed',), ('opchains', tier)]
     n2 = count_shapes(2)
     step = max(1, n2 // 24)
     for i in range(0, n2, step):
@@ -208,6 +208,53 @@ def run_unit(unit, drv, res, seed, tier):
                 items.append((src, e, 'mixed-chain', True))
         run_items(res, drv, items, 'mixed')
         res.exhaustive_done['mixed-chains-le-8'] = True
+    elif kind == 'opchains':
+        # every left-associative level as unparenthesised chains far longer than the exhaustive trees reach:
+        # one operator repeated, and operators of one level mixed; plus the right-associative ?: ladder, the
+        # postfix chains, and the same chains as call arguments / list elements / macro bodies
+        top = 20 if unit[1] == 'quick' else 64
+        levels = [['+', '-'], ['*', '/', '%'], ['==', '!=', '<', '<=', '>', '>=', 'in']]
+
+        def leaf(i):
+            return ('id', 'a%d' % i) if i % 3 else ('lit', I(i + 1))
+
+        def wrapd(e, fam):
+            items.append((render_min(e), e, fam, True))
+            for w in (('call', 'fn', [e, ('id', 'z')]), ('list', [('id', 'z'), e]), ('macro', 'map', ('id', 'l'), 'v', [e]),
+                      ('cond', ('id', 'c'), e, e), ('mcall', ('id', 'r'), 'mth', [e]), ('map', [(('id', 'k'), e)])):
+                items.append((render_min(w), w, fam + '/nested', True))
+        for lv in levels:
+            for n in range(3, top + 1):
+                for op in lv:
+                    e = leaf(0)
+                    for i in range(1, n):
+                        e = ('bin', op, e, leaf(i))
+                    if n <= 12 or n % 4 == 0 or op == lv[0]:
+                        wrapd(e, 'opchain' + op)
+                for _ in range(3):
+                    e = leaf(0)
+                    for i in range(1, n):
+                        e = ('bin', rng.choice(lv), e, leaf(i))
+                    wrapd(e, 'opchain-mixed-level')
+        for n in range(2, min(top, 24) + 1):
+            # else-ladder: c1 ? x1 : c2 ? x2 : ... : y   (right-associative)
+            e = leaf(3 * n)
+            for i in range(n - 1, -1, -1):
+                e = ('cond', ('id', 'c%d' % i), leaf(i), e)
+            wrapd(e, 'cond-ladder')
+            # then-ladder needs no parentheses either: c1 ? c2 ? x : y : z
+            e = leaf(0)
+            for i in range(n):
+                e = ('cond', ('id', 'c%d' % i), e, leaf(i + 1))
+            wrapd(e, 'cond-then-ladder')
+            # postfix chains
+            e = ('id', 'a')
+            for i in range(n):
+                k = (i + n) % 3
+                e = ('sel', e, 'f%d' % i) if k == 0 else ('idx', e, leaf(i)) if k == 1 else ('mcall', e, 'm%d' % i, [leaf(i)])
+            wrapd(e, 'postfix-chain')
+        run_items(res, drv, items, 'opchains')
+        res.exhaustive_done['same-level-operator-chains-3-%d' % top] = True
     elif kind == 'runs':
         operands = [('id', 'a'), ('bin', '+', ('id', 'a'), ('id', 'b')), ('lit', I(5)), ('lit', D(2.5)), ('lit', U(3)),
                     ('lit', S("s")), ('call', 'f', [('id', 'x')]), ('mcall', ('id', 'a'), 'm', []), ('sel', ('id', 'a'), 'b'),
